@@ -57,7 +57,7 @@ pub fn generate_c01(tier: &str, rng: &mut Prng) -> Vec<Case> {
                                 "sign_check {n} {} {} {} {} {} {} {} {} {}",
                                 ints(&f), ints(&g), ints(&cf), ints(&cg), hex(&msg), hex(&r.sig[1..41]), ints(z0), ints(z1), hex(&r.pk)
                             ),
-                            format!("{} {} frac<{}", hex(&r.sig), r.verified, if worst < 1e-3 { "1e-3" } else { "LARGE" }),
+                            format!("{} {} frac<{} hyp=ok", hex(&r.sig), r.verified, if worst < 1e-3 { "1e-3" } else { "LARGE" }),
                         ));
                     }
                 }
@@ -87,10 +87,10 @@ pub fn oracle_c01(op: &[&str], out: &str) -> Verdict {
             }
         }
         "sign_check" => {
-            if out.ends_with("true frac<1e-3") {
+            if out.ends_with("true frac<1e-3 hyp=ok") {
                 Verdict::Pass
             } else {
-                Verdict::Fail(format!("traced signature: {}", &out[out.len().saturating_sub(30)..]))
+                Verdict::Fail(format!("traced signature: {}", &out[out.len().saturating_sub(60)..]))
             }
         }
         "sign_fresh" => {
